@@ -72,8 +72,8 @@ sibling names pairwise different and sibling identifiers pairwise different igno
 width ≥ 1 (non-array ⇒ width 1), cables non-empty, a scalar cable's name is not read as
 `<name>[<digits>]` (the pinned finding's sub-domain), per-bit identifiers `id_i_` legal, every instance
 references a cell that precedes its own cell in the file (acyclic dependencies, writer's order), every
-pin in range and on at most one wire, `EDIF.properties` canonical with string / integer / boolean
-values, status strings printable, a named top instance referencing a cell of the netlist.
+pin in range and on at most one wire, `EDIF.properties` canonical with legal identifiers and
+string / integer / boolean values, status strings printable, a named top instance referencing a cell of the netlist.
 `ScalarLower0 n`: scalar cables start at index 0.
 -/
 
@@ -88,16 +88,15 @@ theorem edif_roundtrip (n : CNetlist) (prog ver : Option Str) (t : CInst) (li di
     ∃ e n', toSExp [y, mo, d, h, mi, s] n = .ok e ∧ ofSExp e = .ok n' ∧ view03 n' = view03 n :=
   edif_roundtrip_view n prog ver t li di y mo d h mi s hwf h0
 
-/-- **edif_roundtrip_text** (FULL, from characters): for every netlist inside the quantifier (and whose
-    property identifiers contain no delimiter — they are EDIF identifiers) the TEXT the model writer
+/-- **edif_roundtrip_text** (FULL, from characters): for every netlist inside the quantifier the TEXT the model writer
     lays out is accepted by the model reader — tokenizer `lexE`, s-expression reader `readS`, `ofSExp` —
     and the netlist read back has the same C03 view.  "The file written is always accepted by the
     reader." -/
 theorem edif_roundtrip_text (n : CNetlist) (prog ver : Option Str) (t : CInst) (li di : Nat)
-    (y mo d h mi s : Nat) (hwf : WFNet n prog ver t li di) (h0 : ScalarLower0 n) (hpl : NetPropsPlain n) :
+    (y mo d h mi s : Nat) (hwf : WFNet n prog ver t li di) (h0 : ScalarLower0 n) :
     ∃ text n', composeE [y, mo, d, h, mi, s] n = .ok text ∧ readEdif text = .ok n' ∧ view03 n' = view03 n := by
   obtain ⟨e, n', hw, hr, hv⟩ := edif_roundtrip n prog ver t li di y mo d h mi s hwf h0
-  have hc := toSExp_clean n prog ver t li di y mo d h mi s hwf hpl e hw
+  have hc := toSExp_clean n prog ver t li di y mo d h mi s hwf e hw
   refine ⟨layoutE e, n', by simp [composeE, hw, bind, Except.bind, pure, Except.pure], ?_, hv⟩
   simp [readEdif, Spydr.Edif.read_lex_layout e hc, hr]
 
@@ -386,20 +385,9 @@ theorem n0_scalar : ScalarLower0 n0 := by
 example : ∃ e n', toSExp [2026, 9, 27, 8, 5, 3] n0 = .ok e ∧ ofSExp e = .ok n' ∧ view03 n' = view03 n0 :=
   edif_roundtrip n0 none none _ 0 1 2026 9 27 8 5 3 n0_WFNet n0_scalar
 
-theorem n0_plain : NetPropsPlain n0 := by
-  intro l hl d hd i hi t ht
-  have : l = lib0 := by simpa [n0] using hl
-  subst this
-  have hd' : d = leaf ∨ d = top := by simpa [lib0] using hd
-  rcases hd' with rfl | rfl
-  · cases hi
-  · simp only [top, List.mem_singleton] at hi
-    subst hi
-    cases ht
-
 /-- … and from characters -/
 example : ∃ text n', composeE [2026, 9, 27, 8, 5, 3] n0 = .ok text ∧ readEdif text = .ok n' ∧ view03 n' = view03 n0 :=
-  edif_roundtrip_text n0 none none _ 0 1 2026 9 27 8 5 3 n0_WFNet n0_scalar n0_plain
+  edif_roundtrip_text n0 none none _ 0 1 2026 9 27 8 5 3 n0_WFNet n0_scalar
 
 end Example
 
